@@ -34,6 +34,11 @@ def observe(impl, L, queries):
         return ['error', 5], None
     except Exception as e:           # anything else is not an error report of the language graph
         return ['error', 9], None
+    return observe_lg(lg, queries), lg
+
+
+def observe_lg(lg, queries):
+    """The observation of an existing language graph object."""
     names = [a.name for a in lg.assets]
     assets = []
     for a in lg.assets:
@@ -57,7 +62,7 @@ def observe(impl, L, queries):
             look.append(None if c is None else akey(c.name, c.left_field.fieldname, c.right_field.fieldname))
         except LookupError:
             look.append('LookupError')
-    return ['ok', assets, assocs, links, sub, look], lg
+    return ['ok', assets, assocs, links, sub, look]
 
 
 def property_violations(L, obs, lg, queries, wf):
@@ -228,7 +233,7 @@ def check(pid: str, tier: str, seed: int):
         impl = C.import_impl()
         gen = LG.LangGen(rng, dup_assoc_names=0.25, reuse_fields=0.35)
         n = 260 if tier == 'quick' else 4000
-        handmade = union_family()
+        handmade = union_family() + LG.parallel_field_langs()
         for i in range(n + len(handmade)):
             L = gen.gen() if i < n else handmade[i - n]
             if i % 2 == 1:
@@ -254,9 +259,31 @@ def check(pid: str, tier: str, seed: int):
                             queries.append((c['rightField'], c['leftField'], t1, t2))
                 if fields and len(fields) > 1:
                     queries.append((rng.choice(fields), rng.choice(fields), rng.choice(names), rng.choice(names)))
+                if i >= n and len(names) <= 5:
+                    # hand-made languages: every pair of types, both orientations
+                    for c in LL['associations']:
+                        for t1 in names:
+                            for t2 in names:
+                                queries.append((c['leftField'], c['rightField'], t1, t2))
+                                queries.append((c['rightField'], c['leftField'], t1, t2))
                 snap = copy.deepcopy(LL)
                 obs, lg = observe(impl, LL, queries)
                 pv = property_violations(snap, obs, lg, queries, wf)
+                if wf and lg is not None and i % 4 == 0:
+                    # the same object after regenerate_graph answers every query as a fresh one does
+                    try:
+                        with C.time_limit(20):
+                            lg.regenerate_graph()
+                            obs2 = observe_lg(lg, queries)
+                        if obs2 != obs:
+                            pv += ['after regenerate_graph: ' + v for v in property_violations(snap, obs2, lg, queries, wf)] or \
+                                  ['after regenerate_graph the language graph answers differently from a fresh one']
+                    except RecursionError:
+                        pv.append('after regenerate_graph a query of the language graph does not terminate (RecursionError)')
+                    except C.ImplTimeout:
+                        pv.append('after regenerate_graph a query of the language graph does not terminate')
+                    except Exception as e:
+                        pv.append(f'after regenerate_graph a query of the language graph raised {type(e).__name__}')
                 if wf and lg is not None and (i % 2 == 0 or i >= n):
                     ev, k = edge_prediction_violations(impl, snap, lg, rng, dense=(i >= n))
                     pv += ev
